@@ -73,6 +73,8 @@ var Ops = []struct {
 	{"generate-fail-definitions", func() string {
 		return generateDigest("grammar gf ;\nAA = /[a-c]+/ ;\nBB = /[a-z]+/ ;\nstart = AA BB ;\n", false)
 	}},
+	// a generation that fails while it prepares the output location (the package directory exists already)
+	{"generate-fail-occupied", func() string { return generateInto(specTwo, false, true) }},
 	{"generate-fail-lalr", func() string {
 		return generateDigest("grammar gl ;\nstart = e ;\ne = e \"+\" e | [ \"-\" \"-\" ] \"i\" ;\n", false)
 	}},
@@ -148,7 +150,11 @@ func (u *silent) Infof(ui.Style, string, ...interface{})  {}
 func (u *silent) Warnf(ui.Style, string, ...interface{})  {}
 func (u *silent) Errorf(ui.Style, string, ...interface{}) {}
 
-func generateDigest(text string, debug bool) string {
+func generateDigest(text string, debug bool) string { return generateInto(text, debug, false) }
+
+// generateInto generates into a fresh directory; with occupied the package directory exists already, so the generation
+// fails while it prepares the output location. The observation holds the permission bits of everything written.
+func generateInto(text string, debug, occupied bool) string {
 	s, err := spec.Parse("f.g", strings.NewReader(text))
 	if err != nil {
 		return "ERROR " + err.Error()
@@ -158,6 +164,9 @@ func generateDigest(text string, debug bool) string {
 		return "MKTEMP " + err.Error()
 	}
 	defer os.RemoveAll(dir)
+	if occupied {
+		_ = os.Mkdir(filepath.Join(dir, s.Name), 0o755)
+	}
 	if err := golang.Generate(&silent{}, &golang.Params{Debug: debug, Path: dir, Spec: s}); err != nil {
 		return "GENERATE ERROR " + strings.ReplaceAll(err.Error(), dir, "<out>")
 	}
@@ -173,7 +182,11 @@ func generateDigest(text string, debug bool) string {
 	for _, f := range files {
 		c, _ := os.ReadFile(f)
 		rel, _ := filepath.Rel(dir, f)
-		fmt.Fprintf(&b, "FILE %s %x\n", rel, sha256.Sum256(c))
+		mode := os.FileMode(0)
+		if info, err := os.Stat(f); err == nil {
+			mode = info.Mode().Perm()
+		}
+		fmt.Fprintf(&b, "FILE %s %04o %x\n", rel, mode, sha256.Sum256(c))
 	}
 	return b.String()
 }
